@@ -25,8 +25,11 @@ from pathlib import Path
 
 VERIF = Path(__file__).resolve().parent.parent
 SPEC = VERIF / "spec"
-EVIDENCE = VERIF / "evidence"
-REPLAYS = VERIF / "replays"
+# VERIF_OUT_DIR redirects evidence and replay files (used by tools/mutcheck.py so that runs against a
+# mutated scratch copy never overwrite the evidence of the real tree)
+_OUT = Path(os.environ["VERIF_OUT_DIR"]) if os.environ.get("VERIF_OUT_DIR") else VERIF
+EVIDENCE = _OUT / "evidence"
+REPLAYS = _OUT / "replays"
 REPO = Path("/repo")
 TLA_JAR = "/opt/veriftools/tla/tla2tools.jar:/opt/veriftools/tla/CommunityModules-deps.jar"
 
